@@ -1,17 +1,19 @@
 (* C17: generated code is closed and binds every type by identity. *)
 From Coq Require Import List String Bool NArith.
-From Verif Require Import Closed ClosedProofs NsBind.
+From Verif Require Import Closed ClosedProofs NsBind Binding.
 Import ListNotations.
 
-(* A program accepted by the analysis never raises NameError / UnboundLocalError: neither its
-   module level code (run by exec with locals dict + globals + builtins = nm) nor any of its
-   functions, called with any arguments, on any path (every branch, every exception edge, any
-   number of loop iterations, any expression raising), with globals + builtins = nf. *)
-Theorem C17_closed_sound : forall nm nf p,
-  check_closed nm nf p = true ->
-  (forall o, exec false [] nm (mod_stmt p) [] o -> o <> OName) /\
+(* A program accepted by the analysis never raises NameError / UnboundLocalError, and never an
+   AttributeError on a module, class or attribute holder of its captured namespace (the outcome
+   OName stands for all three): neither its module level code (run by exec with locals dict +
+   globals + builtins = nm, objects Wm) nor any of its functions, called with any arguments, on any
+   path (every branch, every exception edge, any number of loop iterations, any expression
+   raising), with globals + builtins = nf bound to the objects Wf. *)
+Theorem C17_closed_sound : forall nm nf Wm Wf p,
+  check_closed nm nf Wm Wf p = true ->
+  (forall o, exec false [] nm Wm (mod_stmt p) [] o -> o <> OName) /\
   (forall f, In f (defs p) -> forall B o,
-      incl (fparams f) B -> exec true (fdecl f) nf (fbody f) B o -> o <> OName).
+      incl (fparams f) B -> exec true (fdecl f) nf Wf (fbody f) B o -> o <> OName).
 Proof. exact closed_sound. Qed.
 Print Assumptions C17_closed_sound.
 
@@ -38,7 +40,7 @@ Print Assumptions C17_binding_partial.
 Theorem C17_same_name_refuted : forall (V : Type) (render : V -> string) (o1 o2 : V) rest,
   render o1 = render o2 ->
   lookup V (render o2) (ns_setdefault V render (o1 :: o2 :: rest) []) = Some o1.
-Proof. exact first_wins. Qed.
+Proof. exact NsBind.first_wins. Qed.
 Print Assumptions C17_same_name_refuted.
 
 Theorem C17_binding_refuted : ~ C17_binding_full.
@@ -69,6 +71,7 @@ Open Scope N_scope.
        except AttributeError(=10): raise
        return cls(x, [value for value in d])
    setattr(cls, 'f', f) *)
+Definition W0 : world := mkW [] [].
 Definition ex_body : stmt :=
   SSeq (STry (SSeq (SAssign [3] (ECons (ELoad 2) (ELoad 4)))
                    (STry (SAssign [7] (ECons (ELoad 5) (ELoad 3)))
@@ -79,25 +82,25 @@ Definition ex_body : stmt :=
 Definition ex_prog : program :=
   [IDef (mkFun 1 ENil [2] ex_body); IStmt (SExpr (ECons (ELoad 9) (ECons (ELoad 6) (ELoad 1))))].
 
-Example C17_accepts : check_closed [6; 9] [4; 5; 6; 8; 10] ex_prog = true.
+Example C17_accepts : check_closed [6; 9] [4; 5; 6; 8; 10] W0 W0 ex_prog = true.
 Proof. vm_compute. reflexivity. Qed.
 (* the same program without MISSING in its globals, or with the error path naming an unbound local *)
-Example C17_rejects_missing_global : check_closed [6; 9] [5; 6; 8; 10] ex_prog = false.
+Example C17_rejects_missing_global : check_closed [6; 9] [5; 6; 8; 10] W0 W0 ex_prog = false.
 Proof. vm_compute. reflexivity. Qed.
 Definition ex_bad_body : stmt :=
   STry (SAssign [7] (ELoad 5)) (HCons ENil None (SRaise (ELoad 7)) HNil) SPass SPass.
 Example C17_rejects_unbound_on_except_path :
-  check_closed [] [5] [IDef (mkFun 1 ENil [2] ex_bad_body)] = false.
+  check_closed [] [5] W0 W0 [IDef (mkFun 1 ENil [2] ex_bad_body)] = false.
 Proof. vm_compute. reflexivity. Qed.
 (* and the semantics really can raise NameError there *)
 Example C17_semantics_can_fail :
-  exec true [2; 7] [5] ex_bad_body [2] OName.
+  exec true [2; 7] [5] W0 ex_bad_body [2] OName.
 Proof.
   eapply XTryExc with (B1 := [2]) (o2 := OName).
-  - apply (XAssign true [2; 7] [5] [2] [7] (ELoad 5) RExc). apply EvRaise.
-  - apply (HMatch true [2; 7] [5] ENil None (SRaise (ELoad 7)) HNil [2] OName).
+  - apply (XAssign true [2; 7] [5] W0 [2] [7] (ELoad 5) RExc). apply EvRaise.
+  - apply (HMatch true [2; 7] [5] W0 ENil None (SRaise (ELoad 7)) HNil [2] OName).
     + apply EvNil.
-    + apply (XRaise true [2; 7] [5] [2] (ELoad 7) RName). apply EvLoadBad. reflexivity.
+    + apply (XRaise true [2; 7] [5] W0 [2] (ELoad 7) RName). apply EvLoadBad. reflexivity.
   - apply FinName.
 Qed.
 
@@ -105,8 +108,90 @@ Qed.
 Theorem C17_shard_sound : forall cases,
   Verif.Wire.bad_idx case_ok cases = [] ->
   forall c, In c cases ->
-    (forall o, exec false [] (fst (fst c)) (mod_stmt (snd c)) [] o -> o <> OName) /\
-    (forall f, In f (defs (snd c)) -> forall B o,
-        incl (fparams f) B -> exec true (fdecl f) (snd (fst c)) (fbody f) B o -> o <> OName).
+    (forall o, exec false [] (c_nm c) (c_wm c) (mod_stmt (c_prog c)) [] o -> o <> OName) /\
+    (forall f, In f (defs (c_prog c)) -> forall B o,
+        incl (fparams f) B -> exec true (fdecl f) (c_nf c) (c_wf c) (fbody f) B o -> o <> OName).
 Proof. exact shard_sound. Qed.
 Print Assumptions C17_shard_sound.
+
+(* ---------------------------------------------------------------- identity binding over the object model *)
+
+(* full strength: whatever was imported under a rendered root name, the rendered chain denotes the
+   object found at that path below the imported object *)
+Definition C17_binding_chain_full : Prop :=
+  forall g0 imps h en root path m c,
+    In (root, m) imps -> walk h m path = Some (Some c) ->
+    denote (mkW (assemble g0 imps) h) en root path = Some c.
+
+(* holds when rendered root names are injective on the imported objects, the root is not a name
+   the builder module already owns, and the root is not a local name of the generated function *)
+Theorem C17_binding : forall g0 imps h en root path m c,
+  functional imps -> assoc root g0 = None -> In (root, m) imps ->
+  walk h m path = Some (Some c) -> falls_global en root = true ->
+  denote (mkW (assemble g0 imps) h) en root path = Some c.
+Proof. exact binding_denote. Qed.
+Print Assumptions C17_binding.
+
+(* known collisions, in the object model *)
+Theorem C17_first_import_wins_refuted : forall g0 n o1 o2 rest,
+  assoc n g0 = None -> assoc n (assemble g0 ((n, o1) :: (n, o2) :: rest)) = Some o1.
+Proof. exact Binding.first_wins. Qed.
+Print Assumptions C17_first_import_wins_refuted.
+
+Theorem C17_prepopulated_refuted : forall g0 imps root o',
+  assoc root g0 = Some o' -> assoc root (assemble g0 imps) = Some o'.
+Proof. exact prepopulated_wins. Qed.
+Print Assumptions C17_prepopulated_refuted.
+
+Theorem C17_not_at_qualname_refuted : forall ns W en root path,
+  lookup_ok ns en root = true -> falls_global en root = true -> resolve W root path = None ->
+  eval ns W en (EAttr root path) RName.
+Proof. exact not_at_qualname. Qed.
+Print Assumptions C17_not_at_qualname_refuted.
+
+Theorem C17_local_root_refuted : forall W en root path,
+  falls_global en root = false -> denote W en root path = None.
+Proof. exact local_root_shadows. Qed.
+Print Assumptions C17_local_root_refuted.
+
+Theorem C17_binding_chain_refuted : ~ C17_binding_chain_full.
+Proof.
+  intros H.
+  (* two classes imported under one alias name 7: objects 1 and 2; the chain `7` denotes 1 for both *)
+  specialize (H [] [(7, 1); (7, 2)] [] [] 7 [] 2 2 (or_intror (or_introl eq_refl)) eq_refl).
+  vm_compute in H. discriminate H.
+Qed.
+Print Assumptions C17_binding_chain_refuted.
+
+(* per-run checks are what they say *)
+Theorem C17_binding_ok_sound : forall W exps,
+  binding_ok W exps = true ->
+  forall root path c, In (root, path, c) exps -> resolve W root path = Some (Some c).
+Proof. exact binding_ok_sound. Qed.
+Print Assumptions C17_binding_ok_sound.
+
+Theorem C17_assembly_ok_sound : forall g0 imps real,
+  assembly_ok g0 imps real = true ->
+  forall n o, In (n, o) imps -> assoc n real = assoc n (assemble g0 imps).
+Proof. exact assembly_ok_sound. Qed.
+Print Assumptions C17_assembly_ok_sound.
+
+(* non-vacuity with the new constructs: names 20 = pkg, 21 = mod, 22 = Cls, 23 = Missing, 24 = value (a parameter)
+   objects: 100 = package (module), 101 = module, 102 = class *)
+Definition Wx : world :=
+  mkW [(20, 100)] [(100, mkObj KModule [(21, 101)]); (101, mkObj KModule [(22, 102)]); (102, mkObj KClass [])].
+Definition chain_prog (attr : N) : program :=
+  [IDef (mkFun 1 ENil [24] (SReturn (ECons (EAttr 20 [21; attr]) (EAttr 24 [22; 23]))))].
+Example C17_chain_accepts : check_closed [] [20] W0 Wx (chain_prog 22) = true.
+Proof. vm_compute. reflexivity. Qed.
+Example C17_chain_rejects_missing_attribute : check_closed [] [20] W0 Wx (chain_prog 23) = false.
+Proof. vm_compute. reflexivity. Qed.
+Example C17_chain_denotes : denote Wx [mkF true [24] [24]] 20 [21; 22] = Some 102.
+Proof. vm_compute. reflexivity. Qed.
+Example C17_binding_nonvacuous :
+  functional [(20, 100)] /\ assoc 20 ([] : gmap) = None /\
+  denote (mkW (assemble [] [(20, 100)]) (wheap Wx)) [mkF true [24] [24]] 20 [21; 22] = Some 102.
+Proof.
+  split; [| split; [reflexivity | vm_compute; reflexivity]].
+  intros n o1 o2 [A | []] [B | []]. inversion A; inversion B; congruence.
+Qed.
